@@ -6,6 +6,8 @@ C20 driver: one scenario per line, the model's prediction of the canonical resul
   drv    uring | poll         (poll: `write(2)` on the blocking pipe runs on the runtime thread)
   route  pool | pidfd
   plan   conc | drainwait | waitdrain | seq | held | held-unfixed (the behaviour before the repair of F201)
+         | outheld | errheld | allheld (stdout / stderr / everything piped but left inside the `Child`: the
+         handle is dropped when the wait has completed; such a stream is printed as `-`)
   stdin  pipe | null
   mode   exact | loose        (loose: outcome is schedule dependent, only the monitors judge it)
   script `;`-separated: copy:<limit|*>:<blk>:<o|e|n>  emit:<o|e|n>:<byte>:<count>  nop  exit:<code>  kill:<sig>   (`-` = empty)
@@ -73,6 +75,9 @@ def parsePlan : String → Option Plan
   | "seq" => some .seq
   | "held" => some .held
   | "held-unfixed" => some .heldUnfixed
+  | "outheld" => some .outHeld
+  | "errheld" => some .errHeld
+  | "allheld" => some .allHeld
   | _ => none
 
 def showStatus : Status → String
@@ -93,7 +98,11 @@ def answer (c : Cfg) (script : List CAct) (payload : Bytes) (stdinNull : Bool) (
   let st := match s.wt with
     | .done st => (match waitOutcome reaped st with | some st => showStatus st | none => "lost")
     | _ => "none"
-  s!"ok out={showBytes s.rout} err={showBytes s.rerr} sunk={s.sunk} w={w} st={st}"
+  let outHeld := c.plan = .outHeld ∨ c.plan = .allHeld
+  let errHeld := c.plan = .errHeld ∨ c.plan = .allHeld
+  let o := if outHeld then "-" else showBytes s.rout
+  let e := if errHeld then "-" else showBytes s.rerr
+  s!"ok out={o} err={e} sunk={s.sunk} w={w} st={st}"
 
 def step (_ : Unit) (line : String) : Unit × String :=
   if line.startsWith "#case" then ((), line.trimAscii.toString) else
